@@ -15,9 +15,9 @@ PosTol == 3            \* micro-degrees
 Band == 25             \* metres around the range and jump thresholds
 MaxJump == 100000      \* metres
 
-VARIABLES l, pre, rx, range, now, heard,
+VARIABLES l, pre, rx, range, now, frac, heard,
           gone          \* addresses that were tracked and have been expired since the last reset
-vars == <<l, pre, rx, range, now, heard, gone>>
+vars == <<l, pre, rx, range, now, frac, heard, gone>>
 
 \* ---- observed projection -> abstract record -------------------------------------------------
 SeqMap(s, Op(_)) == [i \in 1..Len(s) |-> Op(s[i])]
@@ -70,6 +70,9 @@ PosOK(old, new, par, rep) ==
                            \/ (old.pos.some = 1 /\ ~Within(old.pos, c, MaxJump, Band))
          IN \/ /\ mayPublish
                /\ new.pos.some = 1 /\ PosClose(new.pos, c)
+               \* the pairing's longitude lies in [-180, 180) (C05): the same place a whole turn away is not the pairing
+               \* (micro-degrees as recorded: 179.9999997 is recorded as 180000000)
+               /\ new.pos.lon >= -180000000 /\ new.pos.lon <= 180000000
                /\ new.even = t.even /\ new.odd = t.odd
                /\ new.dist.some = 1 /\ DistOK(new.dist.m, rx, new.pos, 5 + new.dist.m \div 1000000)
                /\ new.cs = old.cs /\ new.vel = old.vel
@@ -150,10 +153,19 @@ PruneDiff(ev) ==
   IF ev.outcome # "ok" THEN {"panic", "prune_failed"}     \* an expiry that does not complete removed "exactly" nothing it should
   ELSE IF ~DistinctAddrs(ev.planes) THEN {"duplicate_record"}
   ELSE LET post == AsMap(ev.planes)
-           keep == {a \in DOMAIN pre : a \in DOMAIN heard /\ now - heard[a] < ev.T}
-       IN (IF DOMAIN post = keep THEN {} ELSE {"expired_set"})
+           \* time is whole seconds plus milliseconds (ticks may be fractions of a second); El = whole seconds since the
+           \* aircraft was last heard, Fr = the milliseconds beyond; T is whole seconds, so "T or more seconds ago" is El >= T
+           El(a) == LET ds == now - heard[a].s  dm == frac - heard[a].ms IN IF dm < 0 THEN ds - 1 ELSE ds
+           Fr(a) == ((frac - heard[a].ms) + 1000) % 1000
+           \* the recorded ticks are the clock the history means; the run itself takes real time on top (wall_ms, measured by
+           \* the recorder): an aircraft closer to its due time than that is neither required to stay nor to go
+           wall == IF "wall_ms" \in DOMAIN ev THEN ev.wall_ms ELSE 0
+           due == {a \in DOMAIN pre : a \notin DOMAIN heard \/ El(a) >= ev.T}
+           sure == {a \in DOMAIN pre : a \in DOMAIN heard /\ (IF ev.T > 2000000 \/ El(a) > 2000000 THEN El(a) < ev.T
+                                                                  ELSE El(a) * 1000 + Fr(a) + wall < ev.T * 1000)}
+       IN (IF sure \subseteq DOMAIN post /\ DOMAIN post \subseteq (DOMAIN pre \ due) THEN {} ELSE {"expired_set"})
           \* C12's own clause: the set shrinks through expiry only - a record that was not due and is gone was lost
-          \cup (IF keep \subseteq DOMAIN post THEN {} ELSE {"removed_not_due"})
+          \cup (IF sure \subseteq DOMAIN post THEN {} ELSE {"removed_not_due"})
           \cup (IF \A a \in DOMAIN post \cap DOMAIN pre : post[a] = pre[a] THEN {} ELSE {"survivor_changed"})
 
 SerdeDiff(ev) ==
@@ -180,7 +192,8 @@ ClassOf(ev) == IF ev.ev = "action" THEN "track|" \o Class(ev.bytes) ELSE "track|
 Judge(ev) == LET d == EvDiff(ev) IN
              IF d = {} THEN TRUE ELSE PrintT(<<"VERDICT", l, ClassOf(ev), {<<OwnerOf(f), f>> : f \in d}>>)
 
-Init == /\ l = 1 /\ pre = << >> /\ rx = [lat |-> 0, lon |-> 0] /\ range = 0 /\ now = 0 /\ heard = << >> /\ gone = {}
+Init == /\ l = 1 /\ pre = << >> /\ rx = [lat |-> 0, lon |-> 0] /\ range = 0 /\ now = 0 /\ frac = 0 /\ heard = << >> /\ gone = {}
+Stamp == [s |-> now, ms |-> frac]
 
 Consume ==
   /\ l <= Len(Rec)
@@ -190,21 +203,22 @@ Consume ==
      /\ gone' = IF ev.ev = "reset" THEN {}
                 ELSE IF ev.ev = "prune" /\ ev.outcome = "ok" /\ DistinctAddrs(ev.planes) THEN gone \cup (DOMAIN pre \ DOMAIN AsMap(ev.planes))
                 ELSE gone
-     /\ CASE ev.ev = "reset" -> /\ pre' = << >> /\ rx' = ev.rx /\ range' = ev.range_m /\ now' = 0 /\ heard' = << >>
+     /\ CASE ev.ev = "reset" -> /\ pre' = << >> /\ rx' = ev.rx /\ range' = ev.range_m /\ now' = 0 /\ frac' = 0 /\ heard' = << >>
           [] ev.ev = "action" ->
                LET post == IF ev.outcome = "panic" \/ ~DistinctAddrs(ev.planes) THEN pre ELSE AsMap(ev.planes)
                    f == FrameOf(ev.bytes)
-               IN /\ pre' = post /\ UNCHANGED <<rx, range, now>>
+               IN /\ pre' = post /\ UNCHANGED <<rx, range, now, frac>>
                   /\ heard' = LET h0 == [a \in DOMAIN post \cap DOMAIN heard |-> heard[a]]
-                                  h1 == [a \in DOMAIN post \ DOMAIN heard |-> now]          \* resynchronise on the observed set
+                                  h1 == [a \in DOMAIN post \ DOMAIN heard |-> Stamp]        \* resynchronise on the observed set
                                   h == h0 @@ h1
-                              IN IF f.kind # "none" /\ f.addr \in DOMAIN h THEN [h EXCEPT ![f.addr] = now] ELSE h
-          [] ev.ev = "tick" -> /\ now' = now + ev.secs /\ UNCHANGED <<pre, rx, range, heard>>
+                              IN IF f.kind # "none" /\ f.addr \in DOMAIN h THEN [h EXCEPT ![f.addr] = Stamp] ELSE h
+          [] ev.ev = "tick" -> LET ms == frac + (IF "ms" \in DOMAIN ev THEN ev.ms ELSE 0)
+                               IN /\ now' = now + ev.secs + ms \div 1000 /\ frac' = ms % 1000 /\ UNCHANGED <<pre, rx, range, heard>>
           [] ev.ev \in {"prune", "serde"} ->
                LET post == IF ev.outcome # "ok" \/ ~DistinctAddrs(ev.planes) THEN pre ELSE AsMap(ev.planes)
-               IN /\ pre' = post /\ UNCHANGED <<rx, range, now>>
-                  /\ heard' = [a \in DOMAIN post \cap DOMAIN heard |-> heard[a]] @@ [a \in DOMAIN post \ DOMAIN heard |-> now]
-          [] OTHER -> UNCHANGED <<pre, rx, range, now, heard>>
+               IN /\ pre' = post /\ UNCHANGED <<rx, range, now, frac>>
+                  /\ heard' = [a \in DOMAIN post \cap DOMAIN heard |-> heard[a]] @@ [a \in DOMAIN post \ DOMAIN heard |-> Stamp]
+          [] OTHER -> UNCHANGED <<pre, rx, range, now, frac, heard>>
 
 Spec == Init /\ [][Consume]_vars
 Accepted == IF TLCGet("stats").diameter = Len(Rec) + 1 THEN TRUE
